@@ -368,14 +368,18 @@ VerifyP2(env, cap, st, n1, pf, ch) ==
              ELSE IF pf.R[j] = 0 THEN [ok |-> FALSE, ops |-> Append(prev.ops, OpA("L", "pt", pf.L[j]))]
              ELSE [ok |-> TRUE, ops |-> prev.ops \o << OpA("L", "pt", pf.L[j]), OpA("R", "pt", pf.R[j]), OpC("u") >>]
       alg == VerifierAlgebra(env, st, n1, pf, y, z, u, x, w, uk, r)
-      Done(res, ops, dg) == [res |-> res, ops |-> ops, degenerate |-> dg]
+      Done(res, ops, dg) == [res |-> res, ops |-> ops, degenerate |-> dg, alg |-> << >>]
   IN IF cap < pn THEN Done("InvalidGeneratorsLength", << >>, FALSE)
      ELSE IF ~tval.ok THEN Done("VerificationError", ops1 \o tval.ops, FALSE)
      ELSE IF ~ShapeOk(pn, nL, nR) THEN Done("VerificationError", ops1 \o tval.ops \o ops2, FALSE)
      ELSE IF ~RoundsVal[nL].ok THEN Done("VerificationError", ops1 \o tval.ops \o ops2 \o RoundsVal[nL].ops, FALSE)
      ELSE IF y = 0 THEN Done("degenerate", ops1 \o tval.ops \o ops2 \o RoundsVal[nL].ops, TRUE)
-     ELSE Done(IF alg.mega = 0 THEN "ok" ELSE "VerificationError",
-               ops1 \o tval.ops \o ops2 \o RoundsVal[nL].ops \o << OpCL(1), OpCf("r", 1) >>, FALSE)
+     ELSE [res |-> IF alg.mega = 0 THEN "ok" ELSE "VerificationError",
+           ops |-> ops1 \o tval.ops \o ops2 \o RoundsVal[nL].ops \o << OpCL(1), OpCf("r", 1) >>,
+           degenerate |-> FALSE,
+           \* the residuals of the unbatched relations, for C03
+           alg |-> [mega |-> alg.mega, Tres |-> alg.Tres, Ires |-> alg.Ires, r |-> r,
+                    nz |-> \A j \in 1 .. nL : uk[j] # 0]]     \* folding is defined for non-zero round challenges
 
 (***************************************************************************)
 (* The unbatched relations of C03: (a) mandatory points non-identity,      *)
